@@ -47,8 +47,8 @@ def env():
         "Tnt": ext.TypeDef("Tnt", "index of a non-type parameter", [tys.BoundedNatParam(4)], ext.FromParamsBound([0])),
         "Tbad": ext.TypeDef("Tbad", "index out of range", [tys.TypeTypeParam(A)], ext.FromParamsBound([3])),
     }
-    for d in defs.values():
-        e.add_type_def(d)
+    for k in list(defs):
+        defs[k] = e.add_type_def(defs[k]) or defs[k]      # the registered definition (a copy in some versions)
     _env.update(tys=tys, val=val, ops=ops, ext=ext, stys=stys, sops=sops, Array=Array, List=List,
                 StaticArray=StaticArray, int_t=int_t, FLOAT_T=FLOAT_T, STRING_T=STRING_T, defs=defs, extension=e,
                 ArrayVal=ArrayVal, ListVal=ListVal, StaticArrayVal=StaticArrayVal, IntVal=IntVal, FloatVal=FloatVal,
